@@ -162,7 +162,7 @@ class ForkOracle(object):
             apply_op(obj, m[0], m[1], m[2])
         return {"v": apply_op(obj, req["op"][0], req["op"][1], req["op"][2])}
 
-    def ask(self, seq, mutators, op, timeout=60.0):
+    def ask(self, seq, mutators, op, timeout=240.0):
         self.requests += 1
         req = {"seq": seq, "mutators": mutators, "op": op}
         _write_all(self.req_w, (json.dumps(req) + "\n").encode("utf-8"))
